@@ -1013,3 +1013,106 @@ impl<T: Dyn + Clone + 'static> Dyn for Cow<'static, T> {
         (**self).canon(o)
     }
 }
+
+// ---------------------------------------------------------------- the schema container as a value
+
+use borsh::schema::{BorshSchemaContainer, Definition, Fields};
+
+impl Dyn for Fields {
+    fn ty() -> String {
+        format!(
+            "(sum (derivedsrc Fields 0 n) (NamedFields _ (_ 0 {})) (UnnamedFields _ (_ 0 {})) (Empty _))",
+            <Vec<(String, String)> as Dyn>::ty(),
+            <Vec<String> as Dyn>::ty()
+        )
+    }
+    fn gen(g: &mut Gen, d: u32) -> Self {
+        match g.below(3) {
+            0 => Fields::NamedFields(Dyn::gen(g, d + 1)),
+            1 => Fields::UnnamedFields(Dyn::gen(g, d + 1)),
+            _ => Fields::Empty,
+        }
+    }
+    fn val(&self, o: &mut String) {
+        match self {
+            Fields::NamedFields(f) => { o.push_str("(v 0 "); f.val(o); o.push(')'); }
+            Fields::UnnamedFields(f) => { o.push_str("(v 1 "); f.val(o); o.push(')'); }
+            Fields::Empty => o.push_str("(v 2)"),
+        }
+    }
+}
+
+impl Dyn for Definition {
+    fn ty() -> String {
+        format!(
+            "(sum (derivedsrc Definition 0 n) (Primitive _ (_ 0 u8)) \
+             (Sequence _ (length_width 0 u8) (length_range 0 {}) (elements 0 (str string))) \
+             (Tuple _ (elements 0 {})) (Enum _ (tag_width 0 u8) (variants 0 {})) (Struct _ (fields 0 {})))",
+            <core::ops::RangeInclusive<u64> as Dyn>::ty(),
+            <Vec<String> as Dyn>::ty(),
+            <Vec<(i64, String, String)> as Dyn>::ty(),
+            <Fields as Dyn>::ty()
+        )
+    }
+    fn gen(g: &mut Gen, d: u32) -> Self {
+        match g.below(5) {
+            0 => Definition::Primitive(Dyn::gen(g, d + 1)),
+            1 => Definition::Sequence {
+                length_width: Dyn::gen(g, d + 1),
+                length_range: Dyn::gen(g, d + 1),
+                elements: Dyn::gen(g, d + 1),
+            },
+            2 => Definition::Tuple { elements: Dyn::gen(g, d + 1) },
+            3 => Definition::Enum { tag_width: Dyn::gen(g, d + 1), variants: Dyn::gen(g, d + 1) },
+            _ => Definition::Struct { fields: Dyn::gen(g, d + 1) },
+        }
+    }
+    fn val(&self, o: &mut String) {
+        match self {
+            Definition::Primitive(n) => { o.push_str("(v 0 "); n.val(o); o.push(')'); }
+            Definition::Sequence { length_width, length_range, elements } => {
+                o.push_str("(v 1 ");
+                length_width.val(o);
+                o.push(' ');
+                length_range.val(o);
+                o.push(' ');
+                elements.val(o);
+                o.push(')');
+            }
+            Definition::Tuple { elements } => { o.push_str("(v 2 "); elements.val(o); o.push(')'); }
+            Definition::Enum { tag_width, variants } => {
+                o.push_str("(v 3 ");
+                tag_width.val(o);
+                o.push(' ');
+                variants.val(o);
+                o.push(')');
+            }
+            Definition::Struct { fields } => { o.push_str("(v 4 "); fields.val(o); o.push(')'); }
+        }
+    }
+}
+
+impl Dyn for BorshSchemaContainer {
+    fn ty() -> String {
+        format!(
+            "(prod (struct BorshSchemaContainer 0) (declaration 0 (str string)) (definitions 0 {}))",
+            <BTreeMap<String, Definition> as Dyn>::ty()
+        )
+    }
+    fn gen(g: &mut Gen, d: u32) -> Self {
+        if g.chance(1, 2) {
+            crate::schema_ops::gen_container(g)
+        } else {
+            let decl: String = Dyn::gen(g, d + 1);
+            let defs: BTreeMap<String, Definition> = Dyn::gen(g, d + 1);
+            BorshSchemaContainer::new(decl, defs)
+        }
+    }
+    fn val(&self, o: &mut String) {
+        o.push_str("(l ");
+        self.declaration().val(o);
+        o.push(' ');
+        entries(o, self.definitions(), false);
+        o.push(')');
+    }
+}
